@@ -219,5 +219,13 @@ def task_thermo_with_com_removal(ctx):
     C11._run_config(ctx, True, (False, True, False), False, True, False, remove_com=("linear", integer("com_stride")))
 
 
-TASKS_QUICK = ["verlet", "reversibility", "momentum", "kinetic", "thermo_bookkeeping", "thermo_with_velocity_scaling", "thermo_with_energy_shift", "thermo_with_com_removal"]
+def task_nad_step(ctx):
+    """O2 for the surface-hopping engine without thermostat: its _do_integrator_step is the same velocity-Verlet composition,
+    draws no random number, evaluates the force once and runs the electronic update after the completed nuclear step."""
+    from contracts.C12_langevin import nad_nuclear_step
+
+    nad_nuclear_step(ctx, False)
+
+
+TASKS_QUICK = ["verlet", "reversibility", "momentum", "kinetic", "nad_step", "thermo_bookkeeping", "thermo_with_velocity_scaling", "thermo_with_energy_shift", "thermo_with_com_removal"]
 TASKS_THOROUGH = TASKS_QUICK
